@@ -77,6 +77,9 @@ type stack struct {
 	// onInstanceDone lets a scenario decide what happens once an instance
 	// transferred everything: return true to close it from this side.
 	afterDone func(in *instance) bool
+	// writePause, if set, is consulted before every write and may return an
+	// idle period (keepalive pings then flow and are exposed to relay faults)
+	writePause func(side string) time.Duration
 	// eager: Accept is called again immediately (as gRPC does) and Dial may
 	// be called while a connection is still open
 	eager bool
@@ -222,6 +225,15 @@ func (st *stack) runInstance(sd *stackSide, in *instance) {
 					n = in.plan - in.written
 				}
 				p = gen.bytes(n)
+			}
+			if st.writePause != nil {
+				if d := st.writePause(sd.name); d > 0 {
+					select {
+					case <-time.After(d):
+					case <-st.stop:
+						return
+					}
+				}
 			}
 			st.notePlain(p)
 			n, err := in.conn.Write(p)
